@@ -19,6 +19,19 @@ def _q(k, q, nm="", fid="", form="fn", **kw):
     return d
 
 
+def reorder_pairs(d):
+    """the same tree with the keys of every Label / UntypedLabel given in reverse order"""
+    out = dict(d)
+    for key in ("value", "cut", "under", "over", "nan"):
+        if key in out and isinstance(out[key], dict):
+            out[key] = reorder_pairs(out[key])
+    if "pairs" in out:
+        out["pairs"] = {k: reorder_pairs(v) for k, v in reversed(list(out["pairs"].items()))}
+    if "vals" in out:
+        out["vals"] = [reorder_pairs(v) for v in out["vals"]]
+    return out
+
+
 def Count(tr="id"):
     return {"k": "Count", "tr": tr}
 
